@@ -1,0 +1,36 @@
+//go:build verif
+
+// Verification hooks (build tag verif). Add-only: lets the /verif harness drive the subscription
+// readers one Read at a time. Nothing here is compiled into a normal build.
+
+package subscriptions
+
+import (
+	"fmt"
+
+	"github.com/vechain/thor/v2/api"
+	"github.com/vechain/thor/v2/thor"
+)
+
+// VerifReader is the reader the websocket pipe drives: one Read per loop iteration.
+type VerifReader interface {
+	Read() (msgs []any, hasMore bool, err error)
+}
+
+// VerifNewReader builds the reader that the handler of /subscriptions/<kind>?pos=<position> builds,
+// sharing this handler's beat / beat2 message caches. Event and transfer readers match everything.
+func (s *Subscriptions) VerifNewReader(kind string, position thor.Bytes32) (VerifReader, error) {
+	switch kind {
+	case "block":
+		return newBlockReader(s.repo, position), nil
+	case "beat":
+		return newBeatReader(s.repo, position, s.beatCache), nil
+	case "beat2":
+		return newBeat2Reader(s.repo, position, s.beat2Cache), nil
+	case "event":
+		return newEventReader(s.repo, position, &api.SubscriptionEventFilter{}), nil
+	case "transfer":
+		return newTransferReader(s.repo, position, &api.SubscriptionTransferFilter{}), nil
+	}
+	return nil, fmt.Errorf("unknown subscription kind %q", kind)
+}
